@@ -41,9 +41,18 @@ pub struct ExCell<T: ?Sized>(core::cell::Cell<T>);
 // no functional postconditions: Verus cannot model std interior mutability soundly; every fact about
 // the three cells is discharged by Kani on the compiled crate (K.cell.*, K.step, K.sel)
 pub assume_specification<T: Copy>[ core::cell::Cell::<T>::get ](c: &core::cell::Cell<T>) -> T;
-pub assume_specification<T>[ core::cell::Cell::<T>::set ](c: &core::cell::Cell<T>, v: T);
-pub assume_specification<T>[ core::cell::Cell::<T>::replace ](c: &core::cell::Cell<T>, v: T) -> T;
 pub assume_specification<T>[ core::cell::Cell::<T>::new ](v: T) -> core::cell::Cell<T>;
+/// WRITE POLICY (effect contract).  `cell_write_ok` is uninterpreted: a function may store `v` into cell `c` only if
+/// its own precondition grants it.  Functions without such a precondition (decoder, probe, every encoder, ...) can
+/// therefore contain no reachable Cell write at all - for any input of any length - and `process_packet`, whose
+/// precondition pins the predicate to "assigning Set Endpoint ID, v = the packet's EID byte" (resp. the next
+/// selector), can write nothing else.  Any other way of mutating a Cell (swap, take, ...) has no specification here
+/// and is rejected by the verifier.
+pub uninterp spec fn cell_write_ok<T>(c: &core::cell::Cell<T>, v: T) -> bool;
+pub assume_specification<T>[ core::cell::Cell::<T>::set ](c: &core::cell::Cell<T>, v: T)
+    requires cell_write_ok(c, v);
+pub assume_specification<T>[ core::cell::Cell::<T>::replace ](c: &core::cell::Cell<T>, v: T) -> T
+    requires cell_write_ok(c, v);
 
 // =====================================================================================
 // wire format (C04, C05): SMBus header, transport header, whole packet
@@ -210,6 +219,12 @@ pub open spec fn decode_err(p: Seq<u8>) -> DecErr {
 // =====================================================================================
 // request processing (C10-C15)
 // =====================================================================================
+/// C13: the only input that assigns the EID: an accepted Set Endpoint ID request with operation Set (0) or Force (1)
+pub open spec fn is_assigning(p: Seq<u8>) -> bool {
+    decode_accepts(p) && is_ctrl(p) && is_req(p[9]) && p[10] == 1 && (p[11] == 0 || p[11] == 1)
+}
+/// C14: the next selector stored (and returned) for selector i when n sets are configured
+pub open spec fn next_selector_byte(i: u8, n: int) -> u8 { if i as int + 1 == n { 0xFFu8 } else { (i + 1) as u8 } }
 /// accepted control request: the only inputs that are answered (C11)
 pub open spec fn is_answerable(p: Seq<u8>) -> bool { decode_accepts(p) && is_ctrl(p) && is_req(p[9]) }
 /// KNOWN FINDING D10 (recorded, C10): accepted control requests on which process_packet panics today
